@@ -37,6 +37,8 @@ type c15Case struct {
 	// crash enumeration: the op at index Target is interrupted before its K-th mutating file-system call
 	Target int `json:"target,omitempty"`
 	K      int `json:"k,omitempty"`
+	// check "bolt-snapshots": see c15BoltSnapshots
+	BoltOps []c15BoltOp `json:"boltOps,omitempty"`
 }
 
 // c15Snapshot: buckets, keys, bodies, sizes, ETags and user metadata of everything the model holds.
@@ -722,6 +724,9 @@ func c15Replay(check string, raw json.RawMessage) ([]disc, error) {
 	case "crash":
 		ds, _ := c15Crash(cs)
 		return c15Classify(cs.Backend, ds), nil
+	case "bolt-snapshots":
+		ds, _ := c15BoltSnapshots(cs.BoltOps)
+		return ds, nil
 	case "binary":
 		return nil, nil // schedule-dependent: the replay file carries the verdict; nothing deterministic to re-run
 	}
@@ -734,6 +739,7 @@ func TestC15(t *testing.T) {
 		ID:    "C15",
 		Level: "fault_enumeration",
 		Rule: "cases = (a) C02-style programs with 'reopen' ops on bolt / fs on a real directory / directfs with on-disk metadata: full snapshot (buckets, keys, bodies, sizes, ETags, metadata through GET, HEAD and listing) before == after every clean restart; " +
+			"(a') bolt: during every op of put/overwrite/copy/delete programs (bodies up to 1 MiB) the database file is copied at every instant at which the server or the backend reads the clock and opened as a restarted server would: every earlier acknowledged object intact, the op's key wholly old or wholly new, no phantom keys; " +
 			"(b) crash-point enumeration on the fs backends through a fault-injecting afero.Fs: for a history and a target op, the process is 'killed' before EVERY mutating file-system call of that op (writes split in 16 KiB units), a new server is started on the same storage and must open, list, show every earlier acknowledged write intact and the target key wholly old or wholly new; " +
 			"(c) the real cmd/gofakes3 binary: start / write / stop / start cycles per persistent backend (quick), SIGKILL at sampled instants during concurrent uploads, overwrites and deletes (thorough); " +
 			"non-trivial = a reopen after >= 1 overwrite and >= 1 delete, a crash point strictly inside an overwrite of an existing object, or a kill with a request in flight; distinct by the full case",
@@ -781,6 +787,139 @@ func c15GenProgram(rt *rapid.T, single bool) []prog.Op {
 	return append(ops, prog.Op{K: "reopen"})
 }
 
+// ---- bolt: the database file as a kill would leave it at every instant at which the server or the
+// backend reads the clock (between, before and after the transactions of an operation) ---------
+
+type c15BoltOp struct {
+	K    string `json:"op"` // put | del | copy
+	Key  string `json:"key"`
+	Size int    `json:"size,omitempty"`
+	Seed uint64 `json:"seed,omitempty"`
+	Src  string `json:"src,omitempty"`
+}
+
+type c15BoltObj struct {
+	body []byte
+	meta string
+}
+
+func c15BoltSnapshots(ops []c15BoltOp) (ds []disc, snapshots int) {
+	scratch, err := os.MkdirTemp("", "verif-boltsnap-")
+	if err != nil {
+		panic(err)
+	}
+	defer os.RemoveAll(scratch)
+	var st *backends.Stack
+	var snaps []string
+	armed := false
+	hook := func() {
+		if !armed || st == nil || len(snaps) >= 8 {
+			return
+		}
+		b, err := os.ReadFile(st.BoltFile())
+		if err != nil {
+			return
+		}
+		p := filepath.Join(scratch, fmt.Sprintf("snap-%d.db", len(snaps)))
+		if os.WriteFile(p, b, 0600) == nil {
+			snaps = append(snaps, p)
+		}
+	}
+	st = backends.Must(backends.Bolt, backends.Options{ClockHook: hook})
+	defer st.Close()
+	if err := ensureBucket(st, "bk0"); err != nil {
+		panic(err)
+	}
+	acked := map[string]*c15BoltObj{}
+	fail := func(kind, f string, a ...interface{}) {
+		ds = append(ds, disc{Kind: kind, Detail: fmt.Sprintf(f, a...)})
+	}
+	for i, op := range ops {
+		before := map[string]*c15BoltObj{}
+		for k, v := range acked {
+			before[k] = v
+		}
+		var after *c15BoltObj // state of op.Key once the op is acknowledged (nil = absent)
+		meta := fmt.Sprintf("op%d", i)
+		snaps = snaps[:0]
+		armed = true
+		var r *s3x.Resp
+		switch op.K {
+		case "put":
+			body := prog.Pattern(op.Size, op.Seed)
+			r = put(st, "bk0", op.Key, body, "X-Amz-Meta-Gen", meta)
+			after = &c15BoltObj{body, meta}
+		case "del":
+			r = del(st, "bk0", op.Key)
+		case "copy":
+			r = s3x.Do(st.Handler, &s3x.Req{Method: "PUT", Path: "/bk0/" + op.Key, Header: s3x.H("X-Amz-Copy-Source", "/bk0/"+op.Src, "X-Amz-Meta-Gen", meta)})
+			if src := before[op.Src]; src != nil {
+				after = &c15BoltObj{src.body, meta}
+			}
+		}
+		armed = false
+		okStatus := r.Status == 200 || r.Status == 204 || (op.K == "copy" && before[op.Src] == nil && r.Status == 404)
+		if r.Panic != "" || !okStatus {
+			fail("op-failed", "op %d %+v answered %s", i, op, r)
+			return ds, snapshots
+		}
+		if op.K == "copy" && before[op.Src] == nil {
+			after = before[op.Key]
+		}
+		if after == nil {
+			delete(acked, op.Key)
+		} else {
+			acked[op.Key] = after
+		}
+		// every snapshot taken while the op ran: open it as a restarted server would
+		for si, p := range snaps {
+			snapshots++
+			rs, err := backends.New(backends.Bolt, backends.Options{BoltCopyOf: p})
+			if err != nil {
+				fail("open-failed-after-crash", "op %d %+v, file as of clock reading %d: the store does not open: %v", i, op, si, err)
+				continue
+			}
+			check := func(key string, allowed ...*c15BoltObj) {
+				g := get(rs, "bk0", key)
+				for _, a := range allowed {
+					if a == nil && g.Status == 404 {
+						return
+					}
+					if a != nil && g.Status == 200 && bytes.Equal(g.Body, a.body) && g.Header.Get("ETag") == etagOf(a.body) && g.Header.Get("X-Amz-Meta-Gen") == a.meta && g.Header.Get("Content-Length") == fmt.Sprint(len(a.body)) {
+						return
+					}
+				}
+				kind := "acknowledged-write-lost"
+				if len(allowed) == 2 {
+					kind = "in-flight-write-neither-old-nor-new"
+				}
+				fail(kind, "op %d %+v, file as of clock reading %d of the op: GET %s answers %d with %d bytes (md5 %s, ETag %s, Content-Length %s, gen %q)", i, op, si, key, g.Status, len(g.Body), md5hex(g.Body), g.Header.Get("ETag"), g.Header.Get("Content-Length"), g.Header.Get("X-Amz-Meta-Gen"))
+			}
+			if doc, lr := listDoc(rs, "bk0"); doc == nil {
+				fail("list-failed-after-crash", "op %d %+v, file as of clock reading %d: listing answers %s", i, op, si, lr)
+			} else {
+				for _, c := range doc.Contents {
+					if _, known := before[c.Key]; !known && c.Key != op.Key {
+						fail("phantom-key-after-crash", "op %d %+v, file as of clock reading %d: the listing shows %q, which was never written", i, op, si, c.Key)
+					}
+				}
+			}
+			for k, v := range before {
+				if k != op.Key {
+					check(k, v)
+				}
+			}
+			check(op.Key, before[op.Key], after)
+			rs.Close()
+			os.Remove(p)
+		}
+		if len(ds) > 0 {
+			return ds, snapshots
+		}
+	}
+	return ds, snapshots
+}
+
 func c15Run(t *testing.T, c *evid.Collector) {
 	persistent := kindsFromEnv(backends.Persistent)
 	// ---- (a) reopen programs
@@ -824,6 +963,43 @@ func c15Run(t *testing.T, c *evid.Collector) {
 			rt.Fatalf("C15 violated: %v", ds)
 		}
 	})
+	// ---- (a') bolt: the file at every clock reading of every op
+	if evid.Shard() == 0 && len(kindsFromEnv([]backends.Kind{backends.Bolt})) > 0 {
+		big1, big2, big3 := 300*1024+17, 900*1024+5, 700*1024+1
+		progs := [][]c15BoltOp{
+			{{K: "put", Key: "a", Size: 10, Seed: 1}, {K: "put", Key: "a", Size: 20, Seed: 2}, {K: "del", Key: "a"}, {K: "put", Key: "d/x", Size: 5, Seed: 3}},
+			{{K: "put", Key: "a", Size: big2, Seed: 1}, {K: "put", Key: "d/x", Size: 7, Seed: 2}, {K: "put", Key: "a", Size: big3, Seed: 3}, {K: "put", Key: "a", Size: big1, Seed: 4}, {K: "put", Key: "a", Size: 9, Seed: 5}, {K: "put", Key: "a", Size: big2, Seed: 6}},
+			{{K: "put", Key: "a", Size: big1, Seed: 1}, {K: "copy", Key: "b", Src: "a"}, {K: "put", Key: "a", Size: big2, Seed: 2}, {K: "copy", Key: "b", Src: "a"}, {K: "copy", Key: "a", Src: "a"}, {K: "del", Key: "b"}, {K: "del", Key: "a"}},
+			{{K: "put", Key: "a", Size: 40000, Seed: 1}, {K: "put", Key: "a", Size: 32768, Seed: 2}, {K: "put", Key: "a", Size: 32769, Seed: 3}, {K: "put", Key: "a", Size: 1<<20 + 1, Seed: 4}, {K: "put", Key: "a", Size: 1 << 20, Seed: 5}},
+		}
+		for pi, ops := range progs {
+			ds, n := c15BoltSnapshots(ops)
+			cs := c15Case{Backend: backends.Bolt, BoltOps: ops}
+			c.Case(evid.FP("bolt-snapshots", mustJSON(ops)), n > 0, func() interface{} { return cs }, "check:bolt-snapshots", "backend:bolt", fmt.Sprintf("src:fixed-%d", pi), fmt.Sprintf("snapshots:%d", n))
+			report(c, "bolt-snapshots", ds, cs)
+		}
+		rapidRun(t, "bolt-snapshots", evid.Scale(25, 600), func(rt *rapid.T) {
+			var ops []c15BoltOp
+			n := rapid.IntRange(2, 10).Draw(rt, "n")
+			for i := 0; i < n; i++ {
+				key := rapid.SampledFrom([]string{"a", "b", "d/x"}).Draw(rt, "key")
+				switch rapid.IntRange(0, 5).Draw(rt, "kind") {
+				case 0:
+					ops = append(ops, c15BoltOp{K: "del", Key: key})
+				case 1:
+					ops = append(ops, c15BoltOp{K: "copy", Key: key, Src: rapid.SampledFrom([]string{"a", "b", "d/x"}).Draw(rt, "src")})
+				default:
+					ops = append(ops, c15BoltOp{K: "put", Key: key, Size: rapid.SampledFrom([]int{0, 1, 100, 40000, 270000, 600000, 1100000}).Draw(rt, "size"), Seed: uint64(i + 1)})
+				}
+			}
+			ds, n2 := c15BoltSnapshots(ops)
+			cs := c15Case{Backend: backends.Bolt, BoltOps: ops}
+			c.Case(evid.FP("bolt-snapshots", mustJSON(ops)), n2 > 0, func() interface{} { return cs }, "check:bolt-snapshots", "backend:bolt", "src:random")
+			if report(c, "bolt-snapshots", ds, cs) {
+				rt.Fatalf("C15 violated: %v", ds)
+			}
+		})
+	}
 	// ---- (b) crash-point enumeration
 	crashKinds := []backends.Kind{backends.MultiMem, backends.SingleMem}
 	if evid.Thorough() {
